@@ -435,7 +435,11 @@ func Schema(t *rapid.T, label string, o *Opts, depth int) J {
 				members = append(members, J{"$ref": "#/definitions/" + r})
 			} else {
 				m := J{}
-				ObjectInto(t, fmt.Sprintf("%s_am%d", label, i), o, depth+1, m)
+				mo := *o
+				if o.Core {
+					mo.AddlProps = false // members of a composition carry no additionalProperties in the core fragment
+				}
+				ObjectInto(t, fmt.Sprintf("%s_am%d", label, i), &mo, depth+1, m)
 				members = append(members, m)
 			}
 		}
